@@ -22,7 +22,11 @@ func TestMain(m *testing.M) { pbt.Main(m) }
 // types that are sometimes a leaf and sometimes a wrapper,
 // non-comparable values, comparable wrappers around them.
 func cfg(str gen.StrGen) *gen.Cfg {
-	return gen.Default(str).Boost(4, "uopt", "uoptleaf", "dnswrap", "dnsleaf", "uleafnc", "uwraptransparent", "mark", "sentinel")
+	g := gen.Default(str).Boost(4, "uopt", "uoptleaf", "dnswrap", "dnsleaf", "uleafnc", "uwraptransparent", "mark", "sentinel")
+	// also a multi-error type that has a Cause() method besides Unwrap() []error
+	g.Multi = append(append([]string{}, g.Multi...), "umulticauser", "umulticauser")
+	g.WMulti = 2
+	return g
 }
 
 var monotoneWrappers = []string{"wrap", "withmsg", "stack", "hint", "domain", "mark", "secondary", "goerrorf", "pkgwrap", "uwraptransparent", "uwrapcause", "uopt", "tags", "httpcode", "newfw", "ospath"}
